@@ -21,6 +21,7 @@ META = {
     "trusted_base": ["ciborium::value::integer::Integer TryFrom/From implementations", "rustc MIR cast semantics"],
 }
 META["decides"] += ' (As built: a narrowing may also be followed by an explicit map_err to OutOfRangeIntegerValue; a signed->unsigned cast of a value that the selecting guard proves non-negative is exact.)'
+META["decides"] += ' (R-1 also accepts the narrowing written as an explicit match that returns the out-of-range error.)'
 
 INTEGER = "ciborium::value::integer::Integer"
 TRY_INTO = "core::convert::TryInto::try_into"
